@@ -72,6 +72,9 @@ def run_cases(cases):
                         send_r.send_nowait(JSONRPCError(jsonrpc="2.0", id=rid, error={"code": CODES[a["cls"]], "message": msgtxt}))
                     # silence: nothing
                 elif m == "notifications/initialized":
+                    if case.get("broken"):
+                        # the peer no longer reads the client's stream
+                        raise anyio.BrokenResourceError()
                     evs.append({"e": "Initialized"})
                     if server is not None:
                         await server.protocol_handler.handle_message(parse_message(d), new_sid[0])
@@ -104,7 +107,7 @@ def run_cases(cases):
         if server is not None and new_sid[0]:
             s = server.protocol_handler.session_manager.get_session(new_sid[0])
             evs.append({"e": "Session", "version": str(s.protocol_version) if s else "none"})
-        return {"sup": sup, "pref": pref, "tracked": bool(case["tracked"]), "ev": evs}
+        return {"sup": sup, "pref": pref, "tracked": bool(case["tracked"]), "broken": bool(case.get("broken")), "ev": evs}
 
     async def main():
         for c in cases:
